@@ -1273,3 +1273,16 @@ Proof.
   specialize (H s Hs). rewrite forallb_forall in H. apply Forall_forall. intros e He. specialize (H e He).
   unfold nzb in H. apply negb_true_iff in H. apply Z.eqb_neq in H. exact H.
 Qed.
+
+(* the numeric lines (3..9) and the detail of the --observations report are those of the plain report of the
+   transposed table *)
+Definition numeric_lines (r : list (Z * figure) * list (Z * Z)) : list (Z * figure) :=
+  filter (fun lf => Z.leb 3 (fst lf) && Z.leb (fst lf) 9) (fst r).
+
+Lemma report_numeric_transposed q t :
+  numeric_lines (d_report q true t) = numeric_lines (d_report q false (transpose_t t)) /\
+  snd (d_report q true t) = snd (d_report q false (transpose_t t)).
+Proof.
+  unfold numeric_lines, d_report, report_lines; simpl.
+  destruct (stats (d_sample_counts q (transpose_t t))) as [[[mn mx] med] avg]. destruct q; split; reflexivity.
+Qed.
